@@ -463,6 +463,32 @@ impl Fixture {
         })
         .and_then(|r| r)
     }
+    /// C15: the native half of `verify_with_override` alone.
+    pub fn native_verify_with_override(&self, tree: &Value, ov: &ParamOverride) -> Result<Verdict, String> {
+        self.with_engine(|e| {
+            if !e.set_override(Some(ov)) {
+                return Err("engine does not support parameter overrides".to_string());
+            }
+            let n = e.native(tree);
+            e.set_override(None);
+            Ok(n)
+        })
+        .and_then(|r| r)
+    }
+    /// C15: the circuit half of `verify_with_override` alone (verdict, entry point it stopped in).
+    pub fn circuit_verify_with_override(&self, tree: &Value, ov: &ParamOverride) -> Result<(Verdict, &'static str), String> {
+        self.with_engine(|e| {
+            if !e.set_override(Some(ov)) {
+                return Err("engine does not support parameter overrides".to_string());
+            }
+            set_stage("");
+            let c = e.circuit(tree, true);
+            let st = last_stage();
+            e.set_override(None);
+            Ok((c, st))
+        })
+        .and_then(|r| r)
+    }
     /// C15: fresh-circuit verdict plus the entry point it stopped in (`run` for Accept).
     pub fn circuit_verify_fresh_staged(&self, tree: &Value) -> (Verdict, &'static str) {
         set_stage("");
